@@ -323,6 +323,17 @@ func runShip(sc *bw.Scenario, book *simkit.TapeBook, cl *closure, res *vresult, 
 			defer os.Remove("/w/extracted-link")
 		}
 	}
+	fpRoot := ""
+	if !sc.LinkRoots && sc.Seed%3 == 0 {
+		// the caller names the destination relative to its working directory, climbing first
+		os.MkdirAll("/w/elsewhere/deep", 0o755)
+		if os.Chdir("/w/elsewhere/deep") == nil {
+			defer os.Chdir("/cwd")
+			fpRoot = dst
+			dst = "../.." + strings.TrimPrefix(dst, "/w")
+			out.Probe("extract-into-relative-destination")
+		}
+	}
 	// What the builder and the fetcher peer created carries wall-clock times, which end up in
 	// the archive headers and so in the length of the compressed stream. They are data of
 	// this run, not clock readings of the code under test: pin them, so that the same
@@ -375,7 +386,11 @@ func runShip(sc *bw.Scenario, book *simkit.TapeBook, cl *closure, res *vresult, 
 		if rerr == nil && b2 != nil {
 			// legitimate only if the break came after everything the receiver needs
 			// (behind the end-of-archive marker): then what arrived must be complete
-			if d := diffLists(orig, fingerprint(b2, dst, sc, cl)); d != "" {
+			root2 := dst
+			if fpRoot != "" {
+				root2 = fpRoot
+			}
+			if d := diffLists(orig, fingerprint(b2, root2, sc, cl)); d != "" {
 				out.Violate("C12", "extract-ok-on-broken-stream", "partial", fmt.Sprintf("the pipe broke after %d bytes, ExtractArchive returned a bundle, and it differs: %s", breakAt, d))
 			}
 			compareTreesAs(root, realDst, out, "archive extracted from a broken pipe", "C12")
@@ -390,11 +405,14 @@ func runShip(sc *bw.Scenario, book *simkit.TapeBook, cl *closure, res *vresult, 
 		out.Violate("C09", "archive-fails", "extract", fmt.Sprintf("ExtractArchive of WriteArchive's output fails: %v", rerr))
 		return
 	}
-	if d := diffLists(orig, fingerprint(b2, dst, sc, cl)); d != "" {
+	if fpRoot == "" {
+		fpRoot = dst
+	}
+	if d := diffLists(orig, fingerprint(b2, fpRoot, sc, cl)); d != "" {
 		out.Violate("C09", "extract-differs", "accessors", "extracted bundle differs: "+d)
 	}
 	compareTrees(root, realDst, out, "extracted archive")
-	if dst != realDst {
+	if dst != realDst && sc.LinkRoots {
 		checkLinkedRoot(b2, dst, out, "C09", "archive extracted into a directory named by way of a symlink")
 		out.Probe("shipped-through-link")
 	}
